@@ -951,7 +951,10 @@ def _insert_js_css_to_default_locations(
         did_modify_html = True
 
     if js_content is not None and last_end_body_tag_index is not None:
-        js_index = last_end_body_tag_index + index_offset
+        js_index = last_end_body_tag_index
+        # The CSS insertion moves the `</body>` only if the CSS went in before it
+        if first_end_head_tag_index is not None and first_end_head_tag_index < last_end_body_tag_index:
+            js_index += index_offset
         updated_html = updated_html[:js_index] + js_content + updated_html[js_index:]
         did_modify_html = True
 
